@@ -294,6 +294,10 @@ pub fn compute_block(cfg: StructCfg) -> impl Strategy<Value = Vec<MOp>> {
         6 => (2i64..5).prop_map(|k| vec![DUP, p(k), MOD, ALOC, POP]),
         // store a function of i in fresh memory: [i] -> [i, a] -> [i, a, i|w] -> [i, i|w, a] -> STO -> [i]
         3 => (word()).prop_map(|w| vec![p(1), ALOC, p(1), DUPF, p(w % 1000), BOR, SWAP, STO]),
+        // read an inherited stack word into own memory, then overwrite it: a later child must still see the original
+        3 => (0i64..3, word()).prop_map(|(ix, w)| vec![p(ix), LODS, p(1), ALOC, STO, p(w % 1000), p(ix), STOS]),
+        // consume the index and an inherited word, then restore the depth with other values
+        1 => (word()).prop_map(|w| vec![POP, POP, p(w % 100), p(5)]),
         // read parent memory
         2 => (0..MEM_BASE).prop_map(|a| vec![p(a), LODP, POP]),
         2 => (0..MEM_BASE - 4, 0i64..4).prop_map(|(a, n)| vec![p(a), p(n), LODPR, p(n), DROP]),
